@@ -239,9 +239,15 @@ func parseTOCEStargz(r io.Reader) (toc *estargz.JTOC, tocDgst digest.Digest, err
 	}
 	dgstr := digest.Canonical.Digester()
 	toc = new(estargz.JTOC)
-	if err := json.NewDecoder(io.TeeReader(tr, dgstr.Hash())).Decode(&toc); err != nil {
+	hr := io.TeeReader(tr, dgstr.Hash())
+	if err := json.NewDecoder(hr).Decode(&toc); err != nil {
 		return nil, "", fmt.Errorf("error decoding TOC JSON: %v", err)
 	}
+	// The digest covers the whole TOC file, including bytes that follow the JSON
+	// value (e.g. a trailing newline) which the decoder may not have consumed.
+	// Errors are ignored on purpose: the JSON value itself has been read, and a
+	// digest over fewer bytes simply fails the later comparison in VerifyTOC.
+	_, _ = io.Copy(io.Discard, hr)
 	if err := tr.Close(); err != nil {
 		return nil, "", err
 	}
